@@ -1,3 +1,4 @@
+import Proofs.C05Pins
 import GoawkModel.C05
 import GoawkModel.C05Cmp
 import Proofs.C05Value
@@ -399,3 +400,23 @@ theorem gen_matches_getline_returns :
   gen_matches_getline_split
 
 end GoawkModel.C05.Props
+
+/-! ## Pinned source text (regenerated tie; extract/pins.go, tools/repin.py)
+An edit of one of these functions in /repo breaks the matching obligation: the model below was written from the text
+in `Proofs.C05Pins` and has to be compared with the new text before it is re-pinned. -/
+namespace GoawkModel.Pins.C05
+theorem pin_numStr : Generated.C05Pins.numStr = Expected.numStr := rfl
+theorem pin_value_isTrueStr : Generated.C05Pins.value_isTrueStr = Expected.value_isTrueStr := rfl
+theorem pin_value_boolean : Generated.C05Pins.value_boolean = Expected.value_boolean := rfl
+theorem pin_parseFloat : Generated.C05Pins.parseFloat = Expected.parseFloat := rfl
+theorem pin_value_str : Generated.C05Pins.value_str = Expected.value_str := rfl
+theorem pin_value_num : Generated.C05Pins.value_num = Expected.value_num := rfl
+theorem pin_parseFloatPrefix : Generated.C05Pins.parseFloatPrefix = Expected.parseFloatPrefix := rfl
+theorem pin_hasHexPrefix : Generated.C05Pins.hasHexPrefix = Expected.hasHexPrefix := rfl
+theorem pin_hasNaNPrefix : Generated.C05Pins.hasNaNPrefix = Expected.hasNaNPrefix := rfl
+theorem pin_hasInfPrefix : Generated.C05Pins.hasInfPrefix = Expected.hasInfPrefix := rfl
+theorem pin_parseHexFloatPrefix : Generated.C05Pins.parseHexFloatPrefix = Expected.parseHexFloatPrefix := rfl
+theorem pin_toString : Generated.C05Pins.toString = Expected.toString := rfl
+theorem pin_list : Generated.C05Pins.pinned = Expected.pinned := rfl
+end GoawkModel.Pins.C05
+-- end of pinned source text
